@@ -20,7 +20,14 @@ Harness substitutions (all from outside, nothing under the repository is edited)
 Schedule perturbation per batch: sys.setswitchinterval, seeded per-thread yields at LINE events, 0..3 "hot" lines
 where every thread pauses 0.3 ms, optionally one "slow" thread that pauses 0.1 ms at every LINE event.
 
-Debugging aids: C15_DEBUG=1 (one line per batch), C15_ONLY=i,j (run only these batch indices), C15_WATCHDOG=seconds.
+Systematic pass (vlib/jobsched.py, runs first): the same real master / worker / enqueue code as managed threads of the
+deterministic scheduler vlib/sched.py (LINE yield points on queue_orchestrator.py and worker.py, queue / sleep / stop
+event shimmed so nothing blocks for real, timed waits on a virtual clock with a budget of nondeterministic EARLY
+expiries), bounded-preemption DFS + PCT + random walks over a small scenario family (1-3 jobs, 1-2 workers), logical
+quiescence verdict per execution, every violating schedule replayable (witness mode "systematic").
+
+Debugging aids: C15_DEBUG=1 (one line per batch), C15_ONLY=i,j (run only these batch indices), C15_WATCHDOG=seconds,
+C15_SYSTEMATIC=0 (skip the systematic pass) / C15_SYSTEMATIC=only (run nothing else).
 """
 from __future__ import annotations
 
@@ -42,7 +49,11 @@ LEVEL = "exploration"
 RULE = ("seeded batches: n jobs (1..40) x w workers (1..4) x switch interval (log-uniform 1us..5ms) x enqueue pacing x "
         "yield probability x poll intervals; every job has a unique token in data, parameters and context; failing "
         "job kinds {boom, unresolvable, type_gate, yaml_unloadable} rotate over batch positions; distinct = hash of "
-        "the batch spec (jobs, workers, schedule parameters); non-trivial = (>= 2 jobs and >= 2 workers) or a failing job")
+        "the batch spec (jobs, workers, schedule parameters); non-trivial = (>= 2 jobs and >= 2 workers) or a failing job. "
+        "systematic pass: schedules of the real client/master/worker threads under a deterministic scheduler (LINE yield "
+        "points of queue_orchestrator.py + worker.py; bounded-preemption DFS with a budget of early time-out expiries, PCT, "
+        "random walks) over scenarios S1..S5 (1-3 jobs, 1-2 workers); distinct = hash of the executed (thread, line) "
+        "sequence + scenario; non-trivial = a preemption, an early expiry, or a thread that ran again after another ran")
 SHARDS = {"quick": 1, "thorough": 48}     # many small fresh processes (semantiva keeps every generated class alive)
 SHARD_TIMEOUT = {"thorough": 2400}
 N_BATCHES = {"quick": 50, "thorough": 80}     # per shard
@@ -719,6 +730,41 @@ def run(run):
     rng = random.Random(seed)
     scratch = tempfile.mkdtemp(prefix="verif-c15-")
     g = gen.Gen(seed + 7, scratch)
+    sysmode = os.environ.get("C15_SYSTEMATIC", "1")
+    if sysmode != "0":
+        # systematic pass first: it installs / removes its own sys.monitoring tool and module shims (never at the same
+        # time as the YieldInjector below) and restores every module attribute before the perturbation-based batches
+        from vlib import jobsched
+
+        try:
+            jobsched.run_pass(run, scratch)
+        except Exception as exc:  # noqa: BLE001 - a harness failure must not take the perturbation-based part down
+            import traceback
+
+            run.note_inconclusive(f"systematic pass failed: {type(exc).__name__}: {exc} :: {traceback.format_exc()[-600:]}")
+        except BaseException:
+            shutil.rmtree(scratch, ignore_errors=True)
+            raise
+        run.floor("systematic_executions", 500)
+        run.assumptions += [
+            "systematic pass: interleavings are enumerated at the LINE yield points of queue_orchestrator.py and worker.py; "
+            "a transport operation, a Pipeline run, a Future completion (incl. callbacks) and a log call are atomic steps",
+            "systematic pass: a row of the systematic_dfs_* tables (scenario x class of preempted thread x preemption bound x "
+            "early-expiry budget) is exhaustive iff systematic_dfs_exhaustive_shards == systematic_dfs_shards; other rows are "
+            "prefixes of the enumeration cut at the schedule cap. Alternatives are enumerated until the client has returned "
+            "and every Future is done (or quiescence is declared with Futures pending); the continuation to quiescence and "
+            "the loops' run-out follow a fixed rule. With preemption bound 1 the union of the client / master / worker rows is "
+            "the unrestricted bound-1 tree; with bound 2 both preemptions hit the same class of thread",
+            "systematic pass: with early-expiry budget 0 a timed wait (master poll, worker sleep) only expires when no thread "
+            "can run, so a polling thread never runs while another is inside a job; rows with budget >= 1 cover that",
+            "systematic pass: 'never completes' = client returned from every enqueue and every live master/worker thread "
+            "woke up from its idle point by time-out twice in a row (once if every Future is done) while the global progress "
+            "counter (queue put/get, transport publish/delivery, Future completion) did not move",
+        ]
+        if sysmode == "only":
+            shutil.rmtree(scratch, ignore_errors=True)
+            run.case("systematic-only-slot", True)
+            return
     inj = jobq.YieldInjector().install()
     cover: Counter = Counter()
     workers_hist: Counter = Counter()
@@ -810,6 +856,11 @@ def replay(run, witness):
     boot.boot()
     from vlib import jobq
 
+    if witness.get("mode") == "systematic":
+        from vlib import jobsched
+
+        jobsched.replay(run, witness)
+        return
     spec = witness["batch"]
     scratch = tempfile.mkdtemp(prefix="verif-c15-")
     inj = jobq.YieldInjector().install()
